@@ -81,6 +81,13 @@ func (p *XPred) compile() (goexpr.Expr, error) {
 	return q.Where, nil
 }
 
+func compileOpt(p *XPred) (goexpr.Expr, error) {
+	if p == nil {
+		return nil, nil
+	}
+	return p.compile()
+}
+
 func evalPred(ex goexpr.Expr, dims bytemap.ByteMap) (res bool) {
 	defer func() {
 		if r := recover(); r != nil {
